@@ -759,6 +759,7 @@ func strToUpper(s string) string { panic("ghost") }
 func bytesToStr(b []byte) string { panic("ghost") }
 func nowNanos() int64 { panic("ghost") }
 func held(m any) bool { panic("ghost") }
+func fpFloor(x float64) float64 { panic("ghost") }
 func ult(a, b uint64) bool { panic("ghost") }
 func ule(a, b uint64) bool { panic("ghost") }
 func timeNanos(t time_.Time) int64 { panic("ghost") }
